@@ -220,6 +220,8 @@ theorem applyRes_rc (cfg : Cfg) (pol : Policy) (step : Nat) (tickEv : Ev) (dc : 
   | failed exc failedAt =>
     simp only [applyRes]
     split
+    · exact ⟨fun s => ⟨rfl, rfl⟩, rfl⟩
+    split
     · simp
     all_goals
       split
@@ -266,6 +268,8 @@ theorem applyRes_waitersRc (cfg : Cfg) (pol : Policy) (step : Nat) (tickEv : Ev)
       · exact h
   | failed exc failedAt =>
     simp only [applyRes]
+    split
+    · exact h
     split
     · exact h
     all_goals
@@ -331,6 +335,8 @@ theorem applyRes_cmds_rc (cfg : Cfg) (pol : Policy) (step : Nat) (tickEv : Ev) (
         · subst hc; exact hex
   | failed exc failedAt =>
     simp only [applyRes]
+    split
+    · exact h
     split
     · apply app; intro c hc; simp only [List.mem_singleton] at hc; subst hc; exact hex
     all_goals
